@@ -116,10 +116,10 @@ func (s *spec) attempts() int {
 		}
 		return 1
 	}
-	if kindExposesRetry(s.kind) {
+	if kindExposesRetry(s.kind) && s.n > 1 {
 		return s.n
 	}
-	return 1
+	return 1 // also for budgets below 1: post must never run without an exec result (C01)
 }
 
 func (s *spec) hasFallback() bool {
